@@ -255,7 +255,7 @@ type c13Fifos map[string][]byte
 
 // feed starts one writer per pipe and returns a function that makes sure they are gone again
 // (a command that never opens the pipe would leave the writer blocked in open).
-func (ff c13Fifos) feed() (stop func()) {
+func (ff c13Fifos) feed() (stop func(), fed <-chan struct{}) {
 	var wg sync.WaitGroup
 	for path, data := range ff {
 		path, data := path, data
@@ -270,9 +270,9 @@ func (ff c13Fifos) feed() (stop func()) {
 			w.Close()
 		}()
 	}
+	done := make(chan struct{})
+	go func() { wg.Wait(); close(done) }()
 	return func() {
-		done := make(chan struct{})
-		go func() { wg.Wait(); close(done) }()
 		for {
 			select {
 			case <-done:
@@ -287,6 +287,18 @@ func (ff c13Fifos) feed() (stop func()) {
 					}
 				}
 			}
+		}
+	}, done
+}
+
+// unblock lets a reader that sits in open(2) of a pipe go on: a write end is opened without blocking and closed
+// again. Only used once every writer has delivered its bytes (they wait in the pipe), so the reader can not
+// see a premature end of input; without it a command that leaked the read end of an earlier run (the writer
+// then finds a reader, delivers and leaves before the command's own open) would wait for a writer for ever.
+func (ff c13Fifos) unblock() {
+	for path := range ff {
+		if w, err := os.OpenFile(path, os.O_WRONLY|syscall.O_NONBLOCK, 0); err == nil {
+			w.Close()
 		}
 	}
 }
@@ -307,7 +319,31 @@ func c13RunCommands(R *ev.Run, dir, tag string, files []string, n int, fifos ...
 			// the output path holds something longer from an earlier run
 			os.WriteFile(out, bytes.Repeat([]byte("stale line of an earlier and longer product\n"), 4000), 0o644)
 			if len(fifos) > 0 && len(fifos[0]) > 0 {
-				defer fifos[0].feed()()
+				stop, fed := fifos[0].feed()
+				defer stop()
+				cmdDone := make(chan struct{})
+				go func() {
+					defer close(cmdDone)
+					defer func() {
+						if p := recover(); p != nil {
+							err = fmt.Errorf("panic: %v", p)
+						}
+					}()
+					err = f(out)
+				}()
+				select {
+				case <-cmdDone:
+				case <-fed:
+					for waiting := true; waiting; {
+						select {
+						case <-cmdDone:
+							waiting = false
+						case <-time.After(250 * time.Millisecond):
+							fifos[0].unblock()
+						}
+					}
+				}
+				return
 			}
 			err = f(out)
 		}()
